@@ -75,6 +75,13 @@ fn opt_str(v: Option<&Value>) -> Option<Option<&'static [u8]>> {
         None => None,
         Some(Value::Null) => Some(None),
         Some(Value::String(s)) if s == "none" => Some(None),
+        Some(Value::Object(o)) => {
+            if o.get("some").and_then(|x| x.as_bool()).unwrap_or(false) {
+                Some(Some(leak(bytes_of(o.get("s").unwrap_or(&Value::Null)))))
+            } else {
+                Some(None)
+            }
+        }
         Some(Value::Array(a)) if a.is_empty() && !EMPTY_IS_SOME.load(std::sync::atomic::Ordering::Relaxed) => Some(None),
         Some(x) => Some(Some(leak(bytes_of(x)))),
     }
@@ -700,6 +707,13 @@ pub fn do_options(c: &Value) -> Value {
     r
 }
 
+fn ostr(x: Option<&[u8]>) -> Value {
+    match x {
+        Some(b) => json!({"some":true,"s":arr(b)}),
+        None => json!({"some":false,"s":[]}),
+    }
+}
+
 fn do_options_inner(c: &Value) -> Value {
     let kind = c["kind"].as_str().unwrap_or("");
     let o = &c["opts"];
@@ -720,8 +734,8 @@ fn do_options_inner(c: &Value) -> Value {
             let same = rb.build_unchecked() == u;
             json!({"res":{"k":"ok","valid":valid,"build":build,"strict":strict,"rebuild_same":same,
                 "get":{"lossy":u.lossy(),"exp":u.exponent(),"point":u.decimal_point(),
-                       "nan":u.nan_string().map(arr),"inf":u.inf_string().map(arr),
-                       "infinity":u.infinity_string().map(arr)}}})
+                       "nan":ostr(u.nan_string()),"inf":ostr(u.inf_string()),
+                       "infinity":ostr(u.infinity_string())}}})
         }
         "write_float" => {
             let (u, valid) = write_float_opts(o);
@@ -730,13 +744,13 @@ fn do_options_inner(c: &Value) -> Value {
             let strict = catch_unwind(AssertUnwindSafe(|| b.build_strict())).is_ok();
             let same = b.build_unchecked() == u;
             json!({"res":{"k":"ok","valid":valid,"build":build,"strict":strict,"rebuild_same":same,
-                "get":{"max":u.max_significant_digits().map(|x| x.get() as u64),
-                       "min":u.min_significant_digits().map(|x| x.get() as u64),
-                       "pos":u.positive_exponent_break().map(|x| x.get()),
-                       "neg":u.negative_exponent_break().map(|x| x.get()),
+                "get":{"max":u.max_significant_digits().map(|x| x.get() as u64).unwrap_or(0),
+                       "min":u.min_significant_digits().map(|x| x.get() as u64).unwrap_or(0),
+                       "pos":u.positive_exponent_break().map(|x| x.get()).unwrap_or(0),
+                       "neg":u.negative_exponent_break().map(|x| x.get()).unwrap_or(0),
                        "round": format!("{:?}", u.round_mode()).to_lowercase(),
                        "trim":u.trim_floats(),"exp":u.exponent(),"point":u.decimal_point(),
-                       "nan":u.nan_string().map(arr),"inf":u.inf_string().map(arr)}}})
+                       "nan":ostr(u.nan_string()),"inf":ostr(u.inf_string())}}})
         }
         _ => json!({"res":{"k":"badkind"}}),
     }
